@@ -123,6 +123,7 @@ pub fn c11_int_2x2_symbolic_ops() {
         "c11.int: T1 add, T2 set in between, T1 get sees the set value");
     vcover!(ops[0].kind == 5 && ops[0].res != 0, "c11.int: first op of T1 observes T2's effect");
     std::mem::forget(g);
+    vcover!(true, "end of harness reached");
 }
 
 /// Gauge (f64, compare-exchange loop): T1 add(x); get — T2 set(y); sub(z).
@@ -148,6 +149,7 @@ pub fn c11_float_add_get_vs_set_sub() {
     assert!(linearizable(&ops, fin), "C11 Gauge history is linearizable");
     vcover!(ops[1].res == ops[2].x && ops[0].x != 0 && ops[2].x != 0 && ops[3].x != 0, "c11.float: get between set and sub");
     std::mem::forget(g);
+    vcover!(true, "end of harness reached");
 }
 
 /// Gauge (f64): T1 inc; dec — T2 add(x); sub(x): concurrent updates are never lost, final 0.
@@ -174,6 +176,7 @@ pub fn c11_float_inc_dec_vs_add_sub() {
     assert!(v == 0.0, "C11 sub(x) undoes add(x), dec undoes inc, under every schedule");
     vcover!(fails > 0, "c11.float: a compare-exchange was retried");
     std::mem::forget(g);
+    vcover!(true, "end of harness reached");
 }
 
 /// Sequential law for every f64: sub(x) is add(-x) bit for bit, from any start value.
@@ -194,6 +197,7 @@ pub fn c11_float_sub_is_add_neg() {
     assert!(f64_same(g1.get(), s - x), "C11 sub(x) subtracts x");
     std::mem::forget(g1);
     std::mem::forget(g2);
+    vcover!(true, "end of harness reached");
 }
 
 pub fn dispatch(name: &str) -> Option<fn()> {
